@@ -55,13 +55,37 @@ def judge(texts):
     return None
 
 
+def gen_index_case(rng):
+    """a mapping with several integer keys (valid, negative, out-of-range, in any order) merged onto a list, possibly nested"""
+    n = rng.randint(1, 4)
+    lst = [rng.choice([1, 'x', [0], {'p': 1}]) for _ in range(n)]
+    nk = rng.randint(2, 4)
+    keys = []
+    while len(keys) < nk:
+        k = rng.randint(-n - 2, n + 2)
+        if k not in keys:
+            keys.append(k)
+    upd_map = {k: rng.choice([7, 'y', {'q': 2}, [9]]) for k in keys}
+    import json
+    def r(v):
+        if isinstance(v, dict):
+            return '{' + ', '.join(f'{k}: {r(x)}' for k, x in v.items()) + '}'
+        if isinstance(v, list):
+            return '[' + ', '.join(r(x) for x in v) + ']'
+        return json.dumps(v)
+    if rng.random() < 0.5:
+        return ['{a: %s, keep: {p: 1}}' % r(lst), '{a: %s}' % r(upd_map)]
+    return ['{w: {a: %s}, keep: 1}' % r(lst), '{w: {a: %s}}' % r(upd_map), '{keep: 2}']
+
+
 def run(rep, tier, rng):
     rep.rule = ('histories of 1-4 tag-free mapping documents over keys {a,b,c,r,0,1,2} (later documents are mutations of earlier ones: '
-                'type changes at a path, mappings addressing list indices incl. negative/out-of-range, empty containers); '
+                'type changes at a path, mappings addressing list indices incl. negative/out-of-range, empty containers) plus directed histories in which a mapping with 2-4 integer keys in any order meets a list; '
                 'non-trivial = at least 2 stages sharing a path; distinct = hash of the rendered texts')
     base.proofs(rep, 'Properties.C02', THEOREMS, deps=['Proofs.FactsOk'])
     n = 400 if tier == 'quick' else 6000
-    cases = base.merge_t3(rep, rng, ['plain'], n, 'plain', 1, 5)
+    index_cases = [gen_index_case(rng) for _ in range(120 if tier == 'quick' else 2000)]
+    cases = base.merge_t3(rep, rng, ['plain'], n, 'plain', 1, 5, extra_cases=index_cases)
     for c in cases:
         rep.case('\n'.join(c['texts']), c['nstages'] >= 2, sample=dict(docs=c['texts'], outcome=c['kind']))
     load_corr(rep, cases)
@@ -69,7 +93,8 @@ def run(rep, tier, rng):
     prof = gen.PROFILES['plain']
     for _ in range(300 if tier == 'quick' else 6000):
         extra.append(mergecorr.history_texts(gen.gen_history(rng, prof, 2, 5)))
-    base.run_oracle(rep, 'C02', 'fold-of-update reference vs Builder.build', [c['texts'] for c in cases] + extra, judge)
+    base.run_oracle(rep, 'C02', 'fold-of-update reference vs Builder.build', [c['texts'] for c in cases] + extra + index_cases, judge)
+    rep.count('directed: several integer keys (valid / negative / out of range, any order) merged onto a list', len(index_cases))
     for t in extra:
         rep.case('\n'.join(t), True)
 
